@@ -57,6 +57,15 @@ func c17Scenario(seed int64, idx int) (*EvoScenario, int64) {
 	sc := genScenario(g, false)
 	sc.Parallel = false
 	sc.Epochs = 20 + g.Intn(21)
+	if idx%3 == 0 {
+		sc.coarseFitness = true
+		if sc.Opts.BabiesStolen == 0 && g.Intn(2) == 0 {
+			sc.Opts.BabiesStolen = pick(g, 2, 5, sc.Opts.PopSize/4)
+		}
+		if sc.Opts.DropOffAge > 8 {
+			sc.Opts.DropOffAge = 1 + g.Intn(8)
+		}
+	}
 	if sc.Ctor == ctorRead {
 		sc.Ctor = ctorSpawn
 	}
@@ -72,6 +81,12 @@ func c17Scenario(seed int64, idx int) (*EvoScenario, int64) {
 func snapFitness(s *SnapGenome) float64 {
 	h := s.fingerprint()
 	return float64(h%100003)/1000.0 + 0.001
+}
+
+// coarseFitness is deterministic too, but takes five values only: ties between genetically different organisms are the rule,
+// the population record stagnates (delta coding) and every tie-break of the library comes into play
+func coarseFitness(s *SnapGenome) float64 {
+	return float64(1 + s.structFingerprint()%5)
 }
 
 // c17Execute runs the scenario from the seed and returns hash of the population after every epoch
@@ -93,7 +108,11 @@ func c17Execute(sc *EvoScenario, libSeed int64) *c17Result {
 	ctx := neat.NewContext(context.Background(), sc.Opts)
 	for gen := 0; gen < sc.Epochs; gen++ {
 		for _, org := range pop.Organisms {
-			org.Fitness = snapFitness(snapGenome(org.Genotype))
+			if sc.coarseFitness {
+				org.Fitness = coarseFitness(snapGenome(org.Genotype))
+			} else {
+				org.Fitness = snapFitness(snapGenome(org.Genotype))
+			}
 		}
 		if err = ex.NextEpoch(ctx, gen, pop); err != nil {
 			res.errText = fmt.Sprintf("epoch %d: %v", gen, err)
